@@ -641,7 +641,10 @@ func init() { vr.Register("markdown", checkCase) }
 var targets = []string{"modeltable", "rag", "docx", "odt", "xlsx", "pptx", "html", "epub"}
 
 func genCell(t *rapid.T, tok func() string) string {
-	switch rapid.SampledFrom([]string{"tok", "tok", "tok", "pipe", "pipe2", "lonepipe", "empty", "blanks", "newline", "two"}).Draw(t, "cellKind") {
+	switch rapid.SampledFrom([]string{"tok", "tok", "tok", "pipe", "pipe2", "lonepipe", "empty", "blanks", "newline", "two", "pipenewline"}).Draw(t, "cellKind") {
+	case "pipenewline":
+		// both in one cell: "either a|b" on one line, "or c|d" on the next
+		return tok() + "|" + tok() + "\n" + tok() + "|" + tok()
 	case "pipe":
 		return tok() + "|" + tok()
 	case "pipe2":
